@@ -295,6 +295,31 @@ claim('C15',
       'thresholds from the docstrings.',
       'DESIGN.md section 3, C15')
 
+claim('C16',
+      'abstract interpretation of writer and reader with exact unrolling over the four abstract '
+      'bytes: extracted parameter tuples and slot tables compared with each other and the '
+      'specification; literal decode-map table check; decision table of motors_enable over the '
+      'finite clamped request domain x prior motor states',
+      'Decides: D1 var_write_int32 splits the argument with to_bytes(4, big, signed=True) and, on '
+      'every path on which all commands were acknowledged, sends byte k to slot start+k for '
+      'k=0..3 in order (for every byte 0..255 and start 0..28: range validations are decided '
+      'from that domain) and reports success; var_read_int32 reads slots start+k, k=0..3, and '
+      'joins exactly those four values in read order with from_bytes(big, signed=True); writer '
+      'and reader tuples agree. D2 var_read returns int(reply of QL,<index>); EBB3.query returns '
+      'the reply minus the request name and one comma (table shared with C05-D4). D3 '
+      'write_nickname sends "ST,"+strip(name) and stores exactly that text in self.name only when '
+      'the command succeeded; query_nickname sends QT and stores strip(reply). D4 the QE decode '
+      'map equals {0:0} + {2^(5-v): v, v=1..5} and motor 1/2 are decoded from reply field 0/1. '
+      'D5 for 64 request pairs (0..5 and out-of-range representatives) x the 16 consistent prior '
+      'motor states the commands sent by motors_enable equal the documented single-motor '
+      'protocol (CU,50,0 iff exactly one clamped resolution is 0; QE then pre-setting EM,r2,r2 '
+      'iff r1=0, r2!=0 and the prior global mode differs; final EM,r1,r2 always, last); a failed '
+      'QE aborts. NOT decided: that this protocol leaves the board in the stated motor states - '
+      'that depends on firmware EM/CU semantics (a device model).',
+      'Trusted: Python ast, vf/interp.py, vf/ebb3.py, int.to_bytes/from_bytes semantics, the '
+      'protocol table in vf/props/c16.py (from the code comments / EBB EM documentation).',
+      'DESIGN.md section 3, C16')
+
 
 def build():
     checks = []
